@@ -134,12 +134,17 @@ def wrap_style(css, rng, variant):
         return '<%s STYLE="%s">x</%s>' % (tag.upper(), v, tag.upper())
     if variant == "unquoted" and css and not re.search(r"[\s\"'`=<>]", css):
         return "<%s style=%s>x</%s>" % (tag, css.replace("&", "&amp;"), tag)
+    if variant == "tightsep":
+        # what separates the attribute from what precedes it, as the HTML tokenizer sees it: a '/', a tab / newline / form feed,
+        # or nothing at all after a quoted value
+        lead = rng.choice(['/', '\t', '\n', '\f', ' id="a"', " id='a'", '/ ', ' class="c"/'])
+        return '<%s%sstyle="%s">x</%s>' % (tag, lead, attr_escape(css, '"'), tag)
     if variant == "unterminated":
         return '<%s style="%s' % (tag, attr_escape(css, '"'))
     return '<%s title=t style="%s" lang=en>x' % (tag, attr_escape(css, '"'))
 
 
-CSS_VARIANTS = ["dq", "sq", "entities", "unquoted", "open"]
+CSS_VARIANTS = ["dq", "sq", "entities", "unquoted", "open", "tightsep"]
 
 # ----------------------------------------------------------------------------- spellings: HTML node classes
 BAD_CSS = ["position:fixed;top:0", "color:red;position:absolute", "background:url(javascript:alert(1))", "behavior:url(x.htc)",
@@ -224,7 +229,9 @@ def node_variants(c):
         return [(lambda rng, u=u: url_holder(u, rng)) for u in pool]
     if c == "styleattr":
         return [(lambda rng, s=s: ('<%s style="%s">' % (t, attr_escape(s, '"')), "</%s>" % t))
-                for s in BAD_CSS for t in ("p",)] + [fixed("<p style>", "</p>"), fixed("<p style=>", "</p>")]
+                for s in BAD_CSS for t in ("p",)] + [fixed("<p style>", "</p>"), fixed("<p style=>", "</p>")] + \
+               [(lambda rng, s=s, lead=lead: ('<p%sstyle="%s">' % (lead, attr_escape(s, '"')), "</p>"))
+                for s in BAD_CSS[:3] for lead in ('/', '\t', '\n', '\f', ' id="a"', " id='a'")]
     if c == "rawtext":
         return [fixed("<textarea>", "</textarea>"), fixed("<title>", "</title>"), fixed("<xmp>", "</xmp>"), fixed("<noscript>", "</noscript>"),
                 fixed("<plaintext>", ""), fixed("<noembed>", "</noembed>"), fixed("<noframes>", "</noframes>"), fixed("<listing>", "</listing>"),
